@@ -51,7 +51,8 @@ class ChunkedReader:
         done = buf.getvalue()[:2] == b"\r\n"
         while idx < 0 and not done:
             # same cap as for the header block: never buffer without limit
-            if buf.tell() > self.req.max_buffer_headers:
+            # (up to three bytes may be the terminator arriving)
+            if buf.tell() - 3 > self.req.max_buffer_headers:
                 raise LimitRequestHeaders("max buffer trailers")
             self.get_data(unreader, buf)
             idx = buf.getvalue().find(b"\r\n\r\n")
@@ -59,6 +60,9 @@ class ChunkedReader:
         if done:
             unreader.unread(buf.getvalue()[2:])
             return b""
+        # ... and the same verdict when the section arrived in one piece
+        if idx > self.req.max_buffer_headers:
+            raise LimitRequestHeaders("max buffer trailers")
         self.req.trailers = self.req.parse_headers(buf.getvalue()[:idx], from_trailer=True)
         unreader.unread(buf.getvalue()[idx + 4:])
 
@@ -92,13 +96,17 @@ class ChunkedReader:
         while idx < 0:
             # a chunk-size line (with its extensions) is protocol data like
             # the header block: same cap, never buffer without limit
-            if buf.tell() > self.req.max_buffer_headers:
+            # (one byte may be the first half of the terminator)
+            if buf.tell() - 1 > self.req.max_buffer_headers:
                 raise InvalidChunkSize(buf.getvalue()[:64])
             self.get_data(unreader, buf)
             idx = buf.getvalue().find(b"\r\n")
 
         data = buf.getvalue()
         line, rest_chunk = data[:idx], data[idx + 2:]
+        # ... and the same verdict when the line arrived in one piece
+        if idx > self.req.max_buffer_headers:
+            raise InvalidChunkSize(line[:64])
 
         # RFC9112 7.1.1: BWS before chunk-ext - but ONLY then
         chunk_size, *chunk_ext = line.split(b";", 1)
